@@ -95,6 +95,85 @@ def _access_record_rules(ck):
     ck.ob("R9", "EmulatedSymbExec.mem_read:records-the-read", ok, m.where(mr), "a concrete read on the Python back end is not recorded for memory breakpoints")
 
 
+def _inblock_jump_rules(ck):
+    """R12: a destination with a known offset continues INSIDE the translated unit (C `goto`, LLVM branch to the basic block, Python
+    `continue` on the next IR block) only when it lies strictly after the current instruction; a jump to the instruction itself or
+    backwards returns to the dispatcher (breakpoints, per-call instruction limit).  The three back ends must use the same predicate:
+    must-fact `<cur>.offset < offset` at every stay-inside action not taken for an offset-less generated label."""
+    from sa.cfg import CFG
+    from sa.facts import guard_facts, has_cmp
+    from sa.astutil import Resolver
+    sites = 0
+
+    def strict(f, res):
+        for x in f:
+            if x[0] == "cmp" and len(x) == 4:
+                _c, a, op, b = x
+                if op == "<" and a.endswith("instr.offset") and b == "offset":
+                    return True
+                if op == ">" and b.endswith("instr.offset") and a == "offset":
+                    return True
+                # membership in the tail of the (ascending) offsets list that starts AFTER the current instruction
+                if op == "in" and a == "offset" and b.startswith("instr_offsets["):
+                    try:
+                        e = ast.parse(b, mode="eval").body
+                    except SyntaxError:
+                        continue
+                    if isinstance(e, ast.Subscript) and isinstance(e.slice, ast.Slice) and e.slice.upper is None and e.slice.lower is not None:
+                        lo = res.expand(e.slice.lower)
+                        import re as _re
+                        mm = _re.match(r"^instr_offsets\.index\((\w+\.)*instr\.offset\) \+ (\d+)$", lo)
+                        if mm and int(mm.group(2)) >= 1:
+                            return True
+        return False
+
+    def generated_label(f):
+        return has_cmp(f, "offset", "is", "None")
+
+    def actions(rel, q, pred):
+        nonlocal sites
+        m = ck.repo.mod(rel)
+        fn = m.func(q)
+        cfg = CFG(fn)
+        F = guard_facts(cfg)
+        res = Resolver(fn)
+        n = 0
+        for nd in cfg.nodes:
+            if nd.kind != "stmt" or nd.ast is None or not pred(nd.ast):
+                continue
+            f = F.get(nd.id, frozenset())
+            if generated_label(f):
+                continue
+            n += 1
+            sites += 1
+            ck.ob("R12", "%s:stay-inside-only-forward" % q, strict(f, res), m.where(nd.ast),
+                  "%s continues inside the translated block for a destination that is not known to lie strictly after the current "
+                  "instruction: a jump of an instruction to itself (or backwards) no longer returns to the dispatcher on this back end, "
+                  "while the others still do - breakpoint hits and the per-call limit differ" % q)
+        ck.need(n >= 1, "%s: no in-block jump action found" % q)
+
+    def is_goto(st):
+        return any(isinstance(x, ast.Constant) and isinstance(x.value, str) and x.value.lstrip().startswith("goto ") for x in ast.walk(st))
+
+    def is_branch(st):
+        return any(isinstance(x, ast.Call) and (dotted(x.func) or "").endswith("builder.branch") for x in ast.walk(st)) and not isinstance(st, (ast.If, ast.For, ast.While))
+
+    def is_next_irblock(st):
+        if not isinstance(st, ast.Continue):
+            return False
+        par = getattr(st, "_parent", None)
+        body = None
+        for fld in ("body", "orelse"):
+            b = getattr(par, fld, None)
+            if isinstance(b, list) and st in b:
+                body = b
+        return bool(body) and any(isinstance(x, ast.Assign) and norm(x.targets[0]) == "cur_loc_key" for x in body[:body.index(st)])
+    actions("miasm/jitter/codegen.py", "CGen.gen_goto_code", is_goto)
+    actions("miasm/jitter/llvmconvert.py", "LLVMFunction.gen_jump2dst", is_branch)
+    actions("miasm/jitter/jitcore_python.py", "JitCore_Python.add_block.myfunc", is_next_irblock)
+    ck.need(sites >= 3, "fewer than 3 in-block jump actions over the three back ends (%d)" % sites)
+
+
 def run(ck):
     ck.rule("R1", "shared constant names have equal values in csts.py and vm_mngr.h", floor=8)
     ck.rule("R2", "same phase order in the three back ends", floor=3)
@@ -129,6 +208,8 @@ def run(ck):
                 ck.ob("R11", "%s:get_attributes:all-irblocks" % q11, whole, m11.where(c11),
                       "the instruction's attributes are computed from `%s`, not from the whole list of its IR blocks" % norm(a11)[:60])
     ck.ob("R11", "get_attributes-callers-seen", n11 >= 2, "miasm/jitter", "fewer callers of get_attributes than on the pinned tree (%d)" % n11)
+    ck.rule("R12", "a jump stays inside the translated block only to a strictly later instruction, on the three back ends alike", floor=3)
+    _inblock_jump_rules(ck)
     ck.rule("R7", "contradiction lints: a key tested in one table indexes that table; binary calls use distinct operands", floor=2)
     _access_record_rules(ck)
 
